@@ -80,7 +80,11 @@ def ops_for(fnlabel):
     if fnlabel == 'xpath::axis::namespace':
         return ['xpath.query.no_panic']
     if fnlabel.startswith('xpath::axis::'):
-        return ['xpath.query.axes']
+        return ['xpath.query.axes', 'xpath.corpus_paths']
+    if fnlabel in ('xpath::func::lang', 'xpath::func::name', 'xpath::func::local_name', 'xpath::func::namespace_uri', 'xpath::func::count', 'xpath::func::sum'):
+        return ['xpath.corpus_paths', 'xpath.corpus_scalars', 'xpath.corpus_names']
+    if fnlabel in ('eval_node_test', 'eval_axis_node_test', 'eval_step_expr', 'eval_predicate', 'eval_filter_expr', 'eval_union_expr', 'eval_path_expr'):
+        return ['xpath.corpus_paths', 'xpath.corpus_names']
     if fnlabel.startswith('dom::XmlAttr::as_expanded_name') or fnlabel.startswith('dom::XmlElement::'):
         return ['xpath.query.names']
     if fnlabel in ('XmlElement::namespaces', 'XmlElement::in_scope_namespace', 'XmlElement::find_nameapce_uri', 'XmlElement::namespace_name', 'XmlAttribute::namespace_name'):
